@@ -101,7 +101,8 @@ def handle (op : String) (j : Json) : Option Json :=
   | "search" => do
       let r ← getStr? j "re" >>= searchRe?
       let line ← getStr? j "line"
-      pure (Json.mkObj [("m", Json.bool (r.search line.toList))])
+      let dotStar := ["npb.partial", "npb.invalid", "incorrect", "error"].contains ((getStr? j "re").getD "")
+      pure (Json.mkObj [("m", Json.bool (if dotStar then r.searchDotStar line.toList else r.search line.toList))])
   | "float" => do
       let line ← getStr? j "line"
       match pyFloat line.toList with
